@@ -39,6 +39,18 @@ type Writer struct {
 	Cloki  *clconfig.ClokiConfig
 }
 
+// Shutdown closes the test server without ever hanging the caller: httptest.Server.Close waits for
+// outstanding handlers, and a handler that never returns is exactly what some checks look for.
+func (w *Writer) Shutdown() {
+	done := make(chan struct{})
+	go func() { w.Server.Close(); close(done) }()
+	select {
+	case <-done:
+	case <-time.After(2 * time.Second):
+		w.Server.CloseClientConnections()
+	}
+}
+
 // StartWriter assembles the real writer exactly as writer.Init does, except that
 // Initialize (dial + health check) is replaced by handing the fake client factory in.
 func StartWriter(cfg WriterCfg, l *Ledger) *Writer {
